@@ -34,6 +34,10 @@ Oracle (reference list [(secret id, expiry)]):
 Both views are compared after each step: the raw records (parsed here from the layout comments)
 and container.get_leases() (is_renew_secret / get_expiration_time).
 
+Immutable data writes (outside the BFS): the uploader's lease sits behind the data area from allocation on; for a
+grid of in-range writes and of writes ending past the allocated size (1 byte .. more than a lease record) on shares
+of 4 and 100 bytes, the share is completed and closed and must then show exactly that one intact lease.
+
 State = (share file bytes, clock offset).  Canonical form = SHA-256 of both.  Merged states have
 the same futures because lease and slot code keeps no in-memory state (every call re-opens the
 file) and depends on time only through clock.seconds(); no BucketWriter is ever created here
@@ -390,6 +394,9 @@ def expand(chunk):
 
 
 def replay(case):
+    if "imm_write" in case:
+        r = _imm_write_chunk([case["imm_write"]])
+        return [(v["sig"], v["msg"]) for v in r.violations]
     hist = case["history"]
     box = L.Box()
     try:
@@ -423,11 +430,40 @@ def roots_for(tier, seed):
     return out
 
 
+def _imm_write_chunk(chunk):
+    """leases of an immutable share in progress (the uploader's lease is in the file from allocation on) must
+    survive every data write, also one that ends past the allocated size whether refused or accepted
+    (probe shared with C22: vt/props/c22.py overflow_probe)"""
+    from . import c22
+    res = common.Result()
+    for case in chunk:
+        obs = c22.overflow_probe(case)
+        res.count("transitions")
+        res.count("imm_write_probes")
+        if obs.get("read_len") is not None and not obs.get("lease_ok"):
+            res.violation("lease-damaged-by-immutable-data-write", {"imm_write": case},
+                          "share of %d bytes, first %d written, then write(offset=%d, %d bytes) [accepted: %r], completed and closed: the uploader's lease is no longer intact (leases seen: %r)"
+                          % (case[0], case[1], case[2], case[3], obs["accepted"], obs.get("leases")))
+    return res
+
+
+def imm_write_cases():
+    from . import c22
+    out = list(c22.overflow_cases())
+    for size in (4, 100):
+        for off in (0, 1, size // 2, size - 1):
+            for ln in (1, size // 2, size):
+                if off + ln <= size:
+                    out.append([size, 0, off, ln])
+    return out
+
+
 def run(tier, seed):
     depth = 5 if tier == "quick" else 6
     depth = int(os.environ.get("VERIF_C25_DEPTH", depth))
     roots = [[["cfg", cfg]] for cfg in roots_for(tier, seed)]
     res = L.level_bfs(expand, roots, depth)
+    res.merge(common.pmap(_imm_write_chunk, imm_write_cases()))
     cov = {
         "states": res.counts.get("states", 0),
         "transitions": res.counts.get("transitions", 0),
